@@ -16,7 +16,8 @@ class C15(Prop):
             "event observed; distinct = spec digests")
     reach = ["tls_legacy", "tls13", "tls13_switch_client", "tls13_switch_server", "quic_initial", "quic_tls", "quic_ku",
              "mac_keys", "cbc_iv_implicit", "aead_fixed_iv", "sha384_prf", "resumption_shares_master_secret",
-             "key_log_lines_of_connections_interleaved", "quic_version_negotiation_first"]
+             "key_log_lines_of_connections_interleaved", "quic_version_negotiation_first",
+             "tls13_hello_retry_request"]
 
     def plan(self, tier):
         p = super().plan(tier)
@@ -28,7 +29,7 @@ class C15(Prop):
         R = Rng(seed, "C15")
         pairs = gen.all_pairs()
         used = set()
-        cfg = {"records_max": 4, "len_max": 300, "isn_wrap": False, "no_hs_secrets_pct": 0}
+        cfg = {"records_max": 4, "len_max": 300, "isn_wrap": False, "no_hs_secrets_pct": 0, "hrr_pct": 12}
         if idx < len(pairs) or not self.quic_available() or R.chance(55):
             c = gen.gen_tls_conn(R.fork("conn"), 0, cfg, used, pair=pairs[idx] if idx < len(pairs) else None)
         else:
@@ -75,6 +76,8 @@ class C15(Prop):
                     out.count("reach:resumption_shares_master_secret")
                 if "keychan" in spec:
                     out.count("reach:key_log_lines_of_connections_interleaved")
+                if conn.get("hrr"):
+                    out.count("reach:tls13_hello_retry_request")
                 self.check_tls(out, conn, t, mine, switches_attributable=len(spec["conns"]) == 1)
             else:
                 from .. import quicpeer
